@@ -484,6 +484,7 @@ func hasPort(s string) bool {
 // It shuttles data from the output channel to write(), and is killed
 // when the context is cancelled.
 func (conn *Conn) send(ctx context.Context) {
+	rw := conn.io
 	for {
 		select {
 		case line := <-conn.out:
@@ -491,7 +492,7 @@ func (conn *Conn) send(ctx context.Context) {
 				logging.Error("irc.send(): %s", err.Error())
 				// We can't defer this, because Close() waits for it.
 				conn.wg.Done()
-				conn.Close()
+				conn.closeIf(rw)
 				return
 			}
 		case <-ctx.Done():
@@ -506,15 +507,16 @@ func (conn *Conn) send(ctx context.Context) {
 // It receives "\r\n" terminated lines from the server, parses them into
 // Lines, and sends them to the input channel.
 func (conn *Conn) recv() {
+	rw := conn.io
 	for {
-		s, err := conn.io.ReadString('\n')
+		s, err := rw.ReadString('\n')
 		if err != nil {
 			if err != io.EOF {
 				logging.Error("irc.recv(): %s", err.Error())
 			}
 			// We can't defer this, because Close() waits for it.
 			conn.wg.Done()
-			conn.Close()
+			conn.closeIf(rw)
 			return
 		}
 		s = strings.Trim(s, "\r\n")
@@ -550,6 +552,7 @@ func (conn *Conn) ping(ctx context.Context) {
 // It pulls Lines from the input channel and dispatches them to any
 // handlers that have been registered for that IRC verb.
 func (conn *Conn) runLoop(ctx context.Context) {
+	rw := conn.io
 	for {
 		select {
 		case line := <-conn.in:
@@ -560,7 +563,7 @@ func (conn *Conn) runLoop(ctx context.Context) {
 
 			// We can't defer this, because Close() waits for it.
 			conn.wg.Done()
-			conn.Close()
+			conn.closeIf(rw)
 			return
 		}
 	}
@@ -614,10 +617,17 @@ func (conn *Conn) rateLimit(chars int) time.Duration {
 // the sending or receiving goroutines encounter an error.
 // It may also be used to forcibly shut down the connection to the server.
 func (conn *Conn) Close() error {
+	return conn.closeIf(nil)
+}
+
+// closeIf closes the current connection. The goroutines serving a connection
+// pass the connection they belong to, so that a late call from one of them
+// cannot tear down a connection established after theirs was closed.
+func (conn *Conn) closeIf(rw *bufio.ReadWriter) error {
 	// Guard against double-call of Close() if we get an error in send()
 	// as calling sock.Close() will cause recv() to receive EOF in readstring()
 	conn.mu.Lock()
-	if !conn.connected {
+	if !conn.connected || (rw != nil && rw != conn.io) {
 		conn.mu.Unlock()
 		return nil
 	}
